@@ -458,6 +458,143 @@ Section Instance.
   Qed.
 End Instance.
 
+(* ---- the adjacency relations in coordinates (to read torus_conn without trusting the inductive
+        definitions): face_adj = equal length and exactly one coordinate differs, by exactly 1;
+        wrap_pair = low face / high face of a periodic axis, all other coordinates equal ---- *)
+Lemma face_adj_nth a b :
+  face_adj a b <->
+  length a = length b /\
+  exists ax, (ax < length a)%nat /\ Z.abs (nth ax a 0%Z - nth ax b 0%Z) = 1%Z
+             /\ forall k, k <> ax -> nth k a 0%Z = nth k b 0%Z.
+Proof.
+  split.
+  - intros H. induction H as [x y c Hxy|x c d _ (Hlen & ax & Hax & Hd & Ho)].
+    + split; [reflexivity|]. exists 0%nat. cbn [length nth]. split; [lia|]. split; [exact Hxy|].
+      intros [|k] Hk; [congruence|reflexivity].
+    + split; [cbn [length]; congruence|]. exists (S ax). cbn [length nth]. split; [lia|]. split; [exact Hd|].
+      intros [|k] Hk; [reflexivity|]. apply Ho. congruence.
+  - revert b. induction a as [|x a IH]; intros b (Hlen & ax & Hax & Hd & Ho); cbn [length] in *; [lia|].
+    destruct b as [|y b]; [discriminate Hlen|]. cbn [length] in Hlen.
+    destruct ax as [|ax].
+    + cbn [nth] in Hd. assert (E : a = b).
+      { apply (nth_ext a b 0%Z 0%Z); [lia|]. intros k _. apply (Ho (S k)). congruence. }
+      subst b. apply fa_here. exact Hd.
+    + assert (E : x = y) by (apply (Ho 0%nat); congruence). subst y. apply fa_there. apply IH.
+      split; [lia|]. exists ax. split; [lia|]. split; [exact Hd|].
+      intros k Hk. apply (Ho (S k)). congruence.
+Qed.
+
+Lemma set_nth_length v : forall ax l, length (set_nth ax v l) = length l.
+Proof. induction ax as [|ax IH]; intros [|x l]; cbn [set_nth length]; try reflexivity. rewrite IH. reflexivity. Qed.
+
+Lemma set_nth_same v : forall ax l, (ax < length l)%nat -> nth ax (set_nth ax v l) 0%Z = v.
+Proof.
+  induction ax as [|ax IH]; intros [|x l] H; cbn [length] in H; try lia; cbn [set_nth nth]; [reflexivity|].
+  apply IH. lia.
+Qed.
+
+Lemma set_nth_other v : forall ax l k, k <> ax -> nth k (set_nth ax v l) 0%Z = nth k l 0%Z.
+Proof.
+  induction ax as [|ax IH]; intros [|x l] [|k] H; cbn [set_nth nth]; try reflexivity; try congruence.
+  apply IH. congruence.
+Qed.
+
+Lemma wrap_pair_nth g ax l h : grid_ok g ->
+  (wrap_pair g ax l h <->
+   periodic_axis g ax /\ in_range (gshape g) l /\ length h = length l /\
+   nth ax l 0%Z = 0%Z /\ nth ax h 0%Z = (shapeN g ax - 1)%Z /\
+   forall k, k <> ax -> nth k h 0%Z = nth k l 0%Z).
+Proof.
+  intros Hg. unfold wrap_pair. split.
+  - intros (Hp & Hr & H0 & ->). destruct Hp as (a & Hn & Hper).
+    destruct (axis_facts g ax a Hg Hn) as [Hlt _]. pose proof (in_range_length _ _ Hr) as Hlen.
+    split; [exists a; split; assumption|]. split; [exact Hr|]. split; [apply set_nth_length|].
+    split; [exact H0|]. split; [apply set_nth_same; lia|]. intros k Hk. apply set_nth_other. exact Hk.
+  - intros (Hp & Hr & Hlen & H0 & Hh & Ho). split; [exact Hp|]. split; [exact Hr|]. split; [exact H0|].
+    destruct Hp as (a & Hn & _). destruct (axis_facts g ax a Hg Hn) as [Hlt _].
+    pose proof (in_range_length _ _ Hr) as Hlen'.
+    apply (nth_ext h (set_nth ax (shapeN g ax - 1)%Z l) 0%Z 0%Z); [rewrite set_nth_length; exact Hlen|].
+    intros k _. destruct (Nat.eq_dec k ax) as [->|Hne].
+    + rewrite set_nth_same by lia. exact Hh.
+    + rewrite set_nth_other by exact Hne. apply Ho. exact Hne.
+Qed.
+
+(* ---- executable checks of the side conditions ---- *)
+Fixpoint cells_eqb (a b : list cell) : bool :=
+  match a, b with
+  | [], [] => true
+  | x :: a', y :: b' => cell_eqb x y && cells_eqb a' b'
+  | _, _ => false
+  end.
+
+Lemma cells_eqb_true : forall a b, cells_eqb a b = true -> a = b.
+Proof.
+  induction a as [|x a IH]; intros [|y b] H; cbn [cells_eqb] in H; try discriminate H; [reflexivity|].
+  apply andb_true_iff in H. destruct H as [H1 H2]. apply cell_eqb_spec in H1. apply IH in H2. congruence.
+Qed.
+
+Definition wf_imgb (g : grid) (img : limage) : bool :=
+  cells_eqb (map fst img) (all_cells (gshape g))
+  && forallb (fun k => match members img k with [] => false | _ :: _ => true end) (seq 0 (num_labels img)).
+
+Lemma wf_imgb_true g img : wf_imgb g img = true -> wf_img g img.
+Proof.
+  unfold wf_imgb. intros H. apply andb_true_iff in H. destruct H as [H1 H2]. split.
+  - apply cells_eqb_true. exact H1.
+  - intros k Hk. rewrite forallb_forall in H2. specialize (H2 k). rewrite in_seq in H2.
+    destruct (members img k); [|discriminate]. assert (false = true) by (apply H2; lia). discriminate.
+Qed.
+
+Definition grid_okb (g : grid) : bool :=
+  forallb (fun a => Z.ltb 0 (ncell a) && negb (Qle_bool (ahi a) (alo a))) g.
+
+Lemma grid_okb_true g : grid_okb g = true -> grid_ok g.
+Proof.
+  unfold grid_okb, grid_ok. rewrite forallb_forall, Forall_forall. intros H a Ha.
+  specialize (H a Ha). apply andb_true_iff in H. destruct H as [H1 H2]. split; [apply Z.ltb_lt; exact H1|].
+  apply negb_true_iff in H2. apply Qnot_le_lt. intros Hle. apply Qle_bool_iff in Hle. congruence.
+Qed.
+
+(* ---- the premises are satisfiable by a non-trivial input: three cells on a periodic line, the two
+        outer ones on the mask with different labels, joined only across the periodic boundary ---- *)
+Lemma clos_empty {A : Type} (R : A -> A -> Prop) a b : (forall x y, ~ R x y) -> clos R a b -> a = b.
+Proof.
+  intros HR H. induction H as [x|x y _ IH|x y z _ IH1 _ IH2|x y Hs]; try congruence. destruct (HR x y Hs).
+Qed.
+
+Example locate_cart_nonvacuous :
+  exists g img kappa, grid_ok g /\ wf_img g img /\ LabelSpecImg img /\ lift_ok kappa (edges g img) /\
+    exists a b, In a (mask_cells img) /\ In b (mask_cells img) /\ lab_of img a <> lab_of img b
+                /\ torus_conn g img a b.
+Proof.
+  set (g := [{| ncell := 3; alo := 0; ahi := 3; aper := true |}]).
+  set (img := mk_limage [3%Z] [1%nat; 0%nat; 2%nat]).
+  exists g, img, (fun k a => if (Nat.eqb k 1 && Nat.eqb a 0)%bool then (-1)%Z else 0%Z).
+  assert (Hcells : mask_cells img = [[0%Z]; [2%Z]]) by (vm_compute; reflexivity).
+  split; [apply grid_okb_true; vm_compute; reflexivity|].
+  split; [apply wf_imgb_true; vm_compute; reflexivity|].
+  split; [|split].
+  - assert (Hno : forall x y, ~ step0 cell (mask_cells img) face_adj x y).
+    { intros x y (Hx & Hy & Hf). rewrite Hcells in Hx, Hy.
+      destruct Hx as [<-|[<-|[]]]; destruct Hy as [<-|[<-|[]]];
+        inversion Hf as [x' y' c' Hd|x' c' d' Hf']; subst; try lia; inversion Hf'. }
+    intros a b Ha Hb. split.
+    + intros E. rewrite Hcells in Ha, Hb.
+      destruct Ha as [<-|[<-|[]]]; destruct Hb as [<-|[<-|[]]]; try apply cr_refl;
+        vm_compute in E; discriminate E.
+    + intros H. apply (clos_empty _ a b Hno) in H. congruence.
+  - intros kl kh ax Hin a. vm_compute in Hin. destruct Hin as [E|[]]. injection E as <- <- <-.
+    destruct a; reflexivity.
+  - exists [0%Z], [2%Z]. rewrite Hcells.
+    split; [left; reflexivity|]. split; [right; left; reflexivity|]. split; [vm_compute; discriminate|].
+    apply cr_step. rewrite Hcells. split; [left; reflexivity|]. split; [right; left; reflexivity|].
+    right. exists 0%nat. split; [|split; [|split]].
+    + eexists. split; [reflexivity|reflexivity].
+    + repeat constructor; lia.
+    + reflexivity.
+    + reflexivity.
+Qed.
+
 Print Assumptions all_cells_spec.
 Print Assumptions boundary_pairs_spec.
 Print Assumptions periodic_axes_spec.
@@ -467,3 +604,6 @@ Print Assumptions edges_edges_ok.
 Print Assumptions locate_cart_components.
 Print Assumptions locate_cart_volume.
 Print Assumptions locate_cart_position.
+Print Assumptions face_adj_nth.
+Print Assumptions wrap_pair_nth.
+Print Assumptions locate_cart_nonvacuous.
